@@ -321,13 +321,22 @@ func Pool(n int, mk func(i int) *Child, items int, item func(i int) any, handle 
 	wg.Wait()
 }
 
+// MaxDeathsPerBatch bounds how often one batch restarts its worker.
+var MaxDeathsPerBatch = 8
+
 // RunBatch drives n sub-cases through one child. mk(from) builds the work item covering
 // sub-cases [from, n); the worker must emit Sub(i)/Res(i, ...) with absolute indices.
 // A sub-case that kills the child (or exhausts its CPU budget) is reported through onDead
 // and the batch resumes after it.
 func RunBatch(ch *Child, n int, mk func(from int) any, onRes func(i int, r json.RawMessage), onDead func(i int, outcome, stderr string)) {
 	from := 0
+	deaths := 0
 	for from < n {
+		if deaths >= MaxDeathsPerBatch && os.Getenv("VERIF_NO_BREAKER") == "" {
+			// every death costs a CPU budget and a restart; a batch in which the worker keeps dying
+			// is stopped (the remaining sub-cases stay without result = not executed)
+			return
+		}
 		res := ch.Do(mk(from))
 		for _, raw := range res.Res {
 			var l struct {
@@ -346,6 +355,7 @@ func RunBatch(ch *Child, n int, mk func(from int) any, onRes func(i int, r json.
 			// died before starting any sub-case: report the first one and move on
 			dead = from
 		}
+		deaths++
 		if res.SubDone && dead+1 <= n {
 			// the last started sub-case completed; the child died between cases
 			onDead(dead, res.Outcome+":between-cases", res.Stderr)
